@@ -25,6 +25,9 @@ structure Disk (env : Env) (s : State) (sp : Spec) (n : Nat) : Prop where
   cnt2 : s.maxdatfilepos + 2^32 * s.queue.length ≤ 2^32 * n
   recb : ∀ k r p, AL.get s.index k = some r → r.ipos = some p →
     r.fpos + r.blen ≤ 2^32 * n ∧ r.blen ≤ 0xffffffff ∧ r.datfileidx ≤ n
+  /-- EVERY record of the index file — invalid-flagged ones included, which LoadBlockIndex reads for the file number —
+      carries a data-file number ≤ n -/
+  allidx : ∀ p, p % 136 = 0 → p + 136 ≤ s.fs.idx.length → field (recAt s.fs.idx p) 28 32 ≤ n
 
 theorem meta_congr (c : Bytes) (e e' : SEnt) (h : Meta c e) (h1 : e.raw = e'.raw) (h2 : e.height = e'.height)
     (h3 : e.txcount = e'.txcount) : Meta c e' :=
@@ -32,11 +35,14 @@ theorem meta_congr (c : Bytes) (e e' : SEnt) (h : Meta c e) (h1 : e.raw = e'.raw
 
 theorem disk_mono (env : Env) (s : State) (sp : Spec) (n n' : Nat) (h : Disk env s sp n) (hn : n ≤ n') : Disk env s sp n' := by
   have e : 2^32 * n ≤ 2^32 * n' := Nat.mul_le_mul_left _ hn
-  refine ⟨h.mem, h.disk, h.specrec, h.idxspec, h.ent, h.qkey, h.qsize, h.qseq, h.qmeta, ?_, ?_, ?_⟩
+  refine ⟨h.mem, h.disk, h.specrec, h.idxspec, h.ent, h.qkey, h.qsize, h.qseq, h.qmeta, ?_, ?_, ?_, ?_⟩
   · have := h.cnt1; omega
   · have := h.cnt2; omega
   · intro k r p h1 h2
     have := h.recb k r p h1 h2
+    omega
+  · intro p h1 h2
+    have := h.allidx p h1 h2
     omega
 
 /-- the specification changes at key `k` only, keeping the stored block of an untainted entry -/
@@ -45,7 +51,7 @@ theorem disk_spec (env : Env) (s : State) (sp sp' : Spec) (n : Nat) (h : Disk en
     (hk : ∀ e', AL.get sp'.m k = some e' → e'.tainted = false →
       ∃ e, AL.get sp.m k = some e ∧ e.tainted = false ∧ e.raw = e'.raw ∧ e.height = e'.height ∧ e.txcount = e'.txcount)
     (hex : ∀ e, AL.get sp.m k = some e → ∃ e', AL.get sp'.m k = some e') : Disk env s sp' n := by
-  refine ⟨h.mem, h.disk, ?_, ?_, ?_, h.qkey, h.qsize, h.qseq, ?_, h.cnt1, h.cnt2, h.recb⟩
+  refine ⟨h.mem, h.disk, ?_, ?_, ?_, h.qkey, h.qsize, h.qseq, ?_, h.cnt1, h.cnt2, h.recb, h.allidx⟩
   · intro k' e' r p he' ht hr hp
     by_cases hkk : k = k'
     · subst hkk
@@ -82,7 +88,7 @@ theorem disk_update (env : Env) (s s' : State) (sp : Spec) (n : Nat) (h : Disk e
     (g4 : r'.compressed = r0.compressed) (g5 : r'.snappied = r0.snappied) (g6 : r'.ipos = r0.ipos) (g7 : r'.seq = r0.seq)
     (g8 : r0.ipos = none ∨ r'.trusted = r0.trusted) : Disk env s' sp n := by
   refine ⟨?_, ?_, ?_, ?_, ?_, by rw [f2]; exact h.qkey, by rw [f2]; exact h.qsize, by rw [f2, f6]; exact h.qseq, ?_,
-    by rw [f2, f8]; exact h.cnt1, by rw [f2, f7]; exact h.cnt2, ?_⟩
+    by rw [f2, f8]; exact h.cnt1, by rw [f2, f7]; exact h.cnt2, ?_, by rw [f1]; exact h.allidx⟩
   · intro k' r p hh hp
     rw [hidx] at hh
     rw [f1]
@@ -148,7 +154,8 @@ theorem disk_same (env : Env) (s s' : State) (sp : Spec) (n : Nat) (h : Disk env
     (f7 : s'.maxdatfilepos = s.maxdatfilepos) (f8 : s'.maxdatfileidx = s.maxdatfileidx) : Disk env s' sp n :=
   ⟨by rw [f0, f1]; exact h.mem, by rw [f0, f1]; exact h.disk, by rw [f0, f1]; exact h.specrec, by rw [f0]; exact h.idxspec,
    by rw [f0]; exact h.ent, by rw [f2]; exact h.qkey, by rw [f2]; exact h.qsize, by rw [f2, f6]; exact h.qseq,
-   by rw [f0, f2]; exact h.qmeta, by rw [f2, f8]; exact h.cnt1, by rw [f2, f7]; exact h.cnt2, by rw [f0]; exact h.recb⟩
+   by rw [f0, f2]; exact h.qmeta, by rw [f2, f8]; exact h.cnt1, by rw [f2, f7]; exact h.cnt2, by rw [f0]; exact h.recb,
+   by rw [f1]; exact h.allidx⟩
 
 theorem chunk_apart (p p' : Nat) (h1 : p % 136 = 0) (h2 : p' % 136 = 0) (hne : p ≠ p') : p' + 136 ≤ p ∨ p + 1 ≤ p' := by
   omega
@@ -183,8 +190,17 @@ theorem disk_flag (env : Env) (s : State) (sp : Spec) (n : Nat) (h : Disk env s 
     intro e
     have := (h.mem k' r p' h1 h2).1
     rw [e, mk] at this; exact hne this
+  have hall : ∀ p', p' % 136 = 0 → p' + 136 ≤ (setBlockFlag s k r0 fl).fs.idx.length →
+      field (recAt (setBlockFlag s k r0 fl).fs.idx p') 28 32 ≤ n := by
+    intro p' hp1 hp2
+    rw [hlen] at hp2
+    by_cases e : p' = p
+    · subst e
+      rw [hat, field_cons_drop _ _ _ _ (by omega)]
+      exact h.allidx p' hp1 hp2
+    · rw [hsame p' hp1 e]; exact h.allidx p' hp1 hp2
   refine ⟨?_, ?_, ?_, ?_, ?_, by rw [i2]; exact h.qkey, by rw [i2]; exact h.qsize, by rw [i2, i6]; exact h.qseq, ?_,
-    by rw [i2, i8]; exact h.cnt1, by rw [i2, i7]; exact h.cnt2, ?_⟩
+    by rw [i2, i8]; exact h.cnt1, by rw [i2, i7]; exact h.cnt2, ?_, hall⟩
   · intro k' r p' hh hp'
     rw [i0] at hh
     split at hh
@@ -258,12 +274,34 @@ theorem disk_flag_unwritten (env : Env) (s : State) (sp : Spec) (n : Nat) (h : D
     unfold setBlockFlag; simp only [hp]
   exact disk_update env s _ sp n h k r0 _ hr i0 hfs i2 i6 i7 i8 rfl rfl rfl rfl rfl rfl rfl (.inl hp)
 
+/-- an entry without claim (tainted) whose key is not in the index can be dropped from the specification -/
+theorem disk_spec_drop (env : Env) (s : State) (sp sp' : Spec) (n : Nat) (h : Disk env s sp n) (k : Key)
+    (hm : ∀ k', k ≠ k' → AL.get sp'.m k' = AL.get sp.m k')
+    (hnone : AL.get sp'.m k = none) (hidx : AL.get s.index k = none) : Disk env s sp' n := by
+  refine ⟨h.mem, h.disk, ?_, ?_, ?_, h.qkey, h.qsize, h.qseq, ?_, h.cnt1, h.cnt2, h.recb, h.allidx⟩
+  · intro k' e' r p he' ht hr hp
+    by_cases hkk : k = k'
+    · subst hkk; rw [hnone] at he'; cases he'
+    · rw [hm k' hkk] at he'; exact h.specrec k' e' r p he' ht hr hp
+  · intro k' r hr
+    by_cases hkk : k = k'
+    · subst hkk; rw [hidx] at hr; cases hr
+    · rw [hm k' hkk]; exact h.idxspec k' r hr
+  · intro k' e' he' ht
+    by_cases hkk : k = k'
+    · subst hkk; rw [hnone] at he'; cases he'
+    · rw [hm k' hkk] at he'; exact h.ent k' e' he' ht
+  · intro b hb r e' hri hseq hip he' ht
+    by_cases hkk : k = b.idx
+    · rw [← hkk, hnone] at he'; cases he'
+    · rw [hm _ hkk] at he'; exact h.qmeta b hb r e' hri hseq hip he' ht
+
 /-- BlockInvalid of a block that is still queued: forgotten -/
 theorem disk_delete (env : Env) (s : State) (sp : Spec) (n : Nat) (h : Disk env s sp n) (k : Key) (r0 : Rec)
     (hr : AL.get s.index k = some r0) (hp : r0.ipos = none)
     (ht : ∀ e, AL.get sp.m k = some e → e.tainted = true) :
     Disk env { s with cache := AL.del s.cache k, index := AL.del s.index k } sp n := by
-  refine ⟨?_, ?_, ?_, ?_, ?_, h.qkey, h.qsize, h.qseq, ?_, h.cnt1, h.cnt2, ?_⟩
+  refine ⟨?_, ?_, ?_, ?_, ?_, h.qkey, h.qsize, h.qseq, ?_, h.cnt1, h.cnt2, ?_, h.allidx⟩
   · intro k' r p hh hp'
     simp only [AL.get_del] at hh
     split at hh
@@ -333,7 +371,7 @@ theorem writeOne_disk (env : Env) (s s' : State) (sp : Spec) (n : Nat) (h : Disk
     have h0 : Disk env { s with queue := q, datToWrite := s.datToWrite - b.data.length } sp n :=
       ⟨h.mem, h.disk, h.specrec, h.idxspec, h.ent, fun b' hb' => h.qkey b' (hsub b' hb'), fun b' hb' => h.qsize b' (hsub b' hb'),
         fun b' hb' => h.qseq b' (hsub b' hb'), fun b' hb' => h.qmeta b' (hsub b' hb'),
-        by have := h.cnt1; simp only; omega, by have := h.cnt2; simp only; omega, h.recb⟩
+        by have := h.cnt1; simp only; omega, by have := h.cnt2; simp only; omega, h.recb, h.allidx⟩
     simp only at hw
     split at hw
     · cases hw; exact h0
@@ -390,7 +428,7 @@ theorem writeOne_disk (env : Env) (s s' : State) (sp : Spec) (n : Nat) (h : Disk
           rw [← hfl, keyOfRec_mkRecord _ _ _ _ _ _ _ _ _ hb80]; exact (h.qkey b hbq).symm
         have hold : ∀ p, p + 136 ≤ s.fs.idx.length → recAt (s.fs.idx ++ fl) p = recAt s.fs.idx p :=
           fun p hp => recAt_append_left _ _ _ hp
-        refine ⟨?_, ?_, ?_, ?_, ?_, ?_, ?_, ?_, ?_, ?_, ?_, ?_⟩
+        refine ⟨?_, ?_, ?_, ?_, ?_, ?_, ?_, ?_, ?_, ?_, ?_, ?_, ?_⟩
         · intro k' r p hh hp
           rw [hix] at hh
           rw [hidx']
@@ -458,6 +496,14 @@ theorem writeOne_disk (env : Env) (s s' : State) (sp : Spec) (n : Nat) (h : Disk
             rw [← hnr]; simp only
             refine ⟨by omega, hcl, by omega⟩
           · exact h.recb k' r p hh hp
+        · intro p hp1 hp2
+          rw [hidx'] at hp2 ⊢
+          simp only [List.length_append, hfll] at hp2
+          by_cases e : p = s.fs.idx.length
+          · subst e
+            rw [recAt_append_new _ _ hfll, hdesc.dfi, ← hnr]
+            simp only; omega
+          · rw [hold p (by omega)]; exact h.allidx p hp1 (by omega)
 
 theorem writeAll_disk (env : Env) (sp : Spec) (n : Nat) (hn : n < 2^31) : ∀ (f : Nat) (s : State), Disk env s sp n → IdxInv s →
     s.isOpen = true → Disk env (writeAll env f s) sp n := by
